@@ -64,7 +64,7 @@ METAS = [
     "Enter your name",
     " leading space",
 ]
-BODIES = [None, "", "hello\n", "# x\r\n=> y\r\n", b"\x00\x01binary\xff", "ünï\n", b"", "B" * 70000]
+BODIES = [None, "", "hello\n", "# x\r\n=> y\r\n", b"\x00\x01binary\xff", "ünï\n", b"", "B" * 70000, "é€" * 20000]
 STATUSES = [10, 11, 20, 21, 29, 30, 31, 40, 44, 51, 59, 60, 62, 69]
 BAD_STATUSES = [0, 5, 9, 70, 99, 100, 200, -1, 2]
 EXC_MSGS = ["", "boom", "m" * 1500, "multi\nline", "cr\r\nlf", "ünï", "20 ok\r\n"]
